@@ -1,6 +1,7 @@
 #!/bin/sh
 # builds build/ocaml/twmodel from the extracted model + the hand-written driver
 set -e
+rm -f /verif/build/ocaml/twmodel
 B=/verif/build/ocaml
 mkdir -p $B
 cd $B
